@@ -164,6 +164,10 @@ class ProfmodExtractor:
                     # `from . import x` in a script: nothing to match
                     # against the (absolute) names to profile
                     continue
+                if node.module == '__future__':
+                    # Nothing to profile, and no statement may be
+                    # inserted between `from __future__ import ...` lines
+                    continue
                 for name in node.names:
                     if name.name == '*':
                         # `from foo import *` binds no single name
